@@ -16,11 +16,21 @@ import (
 // an arbitrary base; native: a real single-node NodeHost).
 func vhStore() (*RaftStore, *LFSM, *dragonboat.NodeHost, uint64) {
 	nh := verif.NewNodeHost()
-	lf := NewLFSM()(1, 1).(*LFSM)
+	rs, lf, base := vhStoreOn(nh, 1)
+	return rs, lf, nh, base
+}
+
+func vhStoreOn(nh *dragonboat.NodeHost, shard uint64) (*RaftStore, *LFSM, uint64) {
+	lf := NewLFSM()(shard, 1).(*LFSM)
 	base := verif.Uint64()
 	verif.Assume(base >= 1 && base < 1<<62)
-	verif.StartShard(nh, 1, base, lf)
-	return &RaftStore{NodeHost: nh, ClusterID: 1}, lf, nh, base
+	verif.StartShard(nh, shard, base, lf)
+	return &RaftStore{NodeHost: nh, ClusterID: shard}, lf, base
+}
+
+// VHNewStoreOn: the metadata store as shard `shard` of an existing NodeHost.
+func VHNewStoreOn(nh *dragonboat.NodeHost, shard uint64) (*RaftStore, *LFSM, uint64) {
+	return vhStoreOn(nh, shard)
 }
 
 // vhArbMap puts 0..n arbitrary pairs with distinct 1-byte keys and versions
